@@ -14,10 +14,11 @@ set_option linter.unusedSimpArgs false
 /-- **CancelAuction.**  `hid`: the stored auction carries its own key (`ViewWF.id`). -/
 theorem tie_CancelAuction (c : Ctx) (signer : Acc) (aid : Nat) (v : AView) (hv : c.s.views[aid]? = some v)
     (hid : v.a.id = aid) :
-    cancelAuction c signer aid = Go.runPlan c aid v (Gen.CancelAuction ⟨signer, aid⟩ v.a false c.s.bank) := by
+    cancelAuction c signer aid = Go.runPlan c aid v (Gen.CancelAuction ⟨signer, aid⟩ (rdAuction c.s) c.s.bank) := by
   subst hid
+  have hA : rdAuction c.s (v.a.id : Int) = (v.a, false) := by simp [rdAuction, hv]
   unfold cancelAuction Gen.CancelAuction
-  simp only [Ctx.view, hv, Ctx.bal]
+  simp only [Ctx.view, hv, Ctx.bal, hA]
   by_cases h1 : v.a.auctioneer = signer
   · subst h1
     by_cases h2 : v.a.status = Status.standby
@@ -38,10 +39,11 @@ theorem tie_CancelAuction (c : Ctx) (signer : Acc) (aid : Nat) (v : AView) (hv :
   · simp [runPlan, bind, Except.bind, pure, Except.pure, Ctx.fail, Ctx.check, h1]
 
 theorem tie_CancelAuction_noAuction (c : Ctx) (signer : Acc) (aid : Nat) (hv : c.s.views[aid]? = none)
-    (a : Auction) (bal : Addr → Denom → Int) :
-    cancelAuction c signer aid = c.fail ∧ Gen.CancelAuction ⟨signer, aid⟩ a true bal = (true, []) := by
+    (bal : Addr → Denom → Int) :
+    cancelAuction c signer aid = c.fail ∧ Gen.CancelAuction ⟨signer, aid⟩ (rdAuction c.s) bal = (true, []) := by
+  have hA : rdAuction c.s (aid : Int) = (default, true) := by simp [rdAuction, hv]
   unfold cancelAuction Gen.CancelAuction
-  simp [Ctx.view, hv, Ctx.fail, bind, Except.bind]
+  simp [Ctx.view, hv, Ctx.fail, bind, Except.bind, hA]
 
 /-! ### the loop of `AddAllowedBidders` -/
 
@@ -59,7 +61,7 @@ private def loopPlan : Loop (Bool × List GEff) (List GEff) → Bool × List GEf
   | .done e => (false, e)
 
 private theorem addLoop_run (a : Auction) (aid : Nat) (err : Bool) (abs : List AllowedArg) (effs : List GEff)
-    (c0 : Ctx) (v0 : AView) :
+    (c0 : Ctx) (v0 : AView) (hid : v0.a.id = aid) :
     runPlan c0 aid v0 (loopPlan (AddAllowedBidders.loop1 a (aid : Int) err abs effs)) =
       (runEffs effs c0 v0 >>= fun p => do
         let l ← addLoop p.1 a.sellAmt abs p.2.allowed
@@ -77,19 +79,25 @@ private theorem addLoop_run (a : Auction) (aid : Nat) (err : Bool) (abs : List A
           cases runEffs effs c0 v0 <;> simp [bind, Except.bind, pure, Except.pure]
         · simp only [h1, h2, h3, sellingCoin_amt, decide_true, decide_false, Bool.and_self, Bool.not_true,
             Bool.false_eq_true, if_false, ih, runEffs_append]
-          cases runEffs effs c0 v0 <;>
-            simp [bind, Except.bind, pure, Except.pure, applyEff, Ctx.check, setAllowedArg]
+          cases hr : runEffs effs c0 v0 with
+          | error e => simp [bind, Except.bind, pure, Except.pure]
+          | ok p =>
+            have hp : p.2.a.id = aid := by
+              rw [runEffs_id effs c0 v0 p.1 p.2 hr, hid]
+            simp [bind, Except.bind, pure, Except.pure, applyEff, Ctx.check, setAllowedArg, hp]
       · simp [h1, h2, loopPlan, runPlan, Ctx.check, Ctx.fail]
         cases runEffs effs c0 v0 <;> simp [bind, Except.bind, pure, Except.pure]
     · simp [h1, loopPlan, runPlan, Ctx.check, Ctx.fail]
       cases runEffs effs c0 v0 <;> simp [bind, Except.bind, pure, Except.pure]
 
 /-- **AddAllowedBidders** (keeper API). -/
-theorem tie_AddAllowedBidders (c : Ctx) (aid : Nat) (abs : List AllowedArg) (v : AView) (hv : c.s.views[aid]? = some v) :
-    addAllowedBidders c aid abs = Go.runPlan c aid v (Gen.AddAllowedBidders (aid : Int) abs v.a false) := by
-  have key := addLoop_run v.a aid false abs [GEff.mk GName.beforeAllowedBiddersAdded [GVal.allowed abs]] c v
+theorem tie_AddAllowedBidders (c : Ctx) (aid : Nat) (abs : List AllowedArg) (v : AView) (hv : c.s.views[aid]? = some v)
+    (hid : v.a.id = aid) :
+    addAllowedBidders c aid abs = Go.runPlan c aid v (Gen.AddAllowedBidders (aid : Int) abs (rdAuction c.s)) := by
+  have key := addLoop_run v.a aid false abs [GEff.mk GName.beforeAllowedBiddersAdded [GVal.allowed abs]] c v hid
+  have hA : rdAuction c.s (aid : Int) = (v.a, false) := by simp [rdAuction, hv]
   unfold addAllowedBidders Gen.AddAllowedBidders
-  simp only [Ctx.view, hv]
+  simp only [Ctx.view, hv, hA]
   cases abs with
   | nil => simp [runPlan, Ctx.check, Ctx.fail, bind, Except.bind, pure, Except.pure]
   | cons ab rest =>
@@ -100,57 +108,62 @@ theorem tie_AddAllowedBidders (c : Ctx) (aid : Nat) (abs : List AllowedArg) (v :
     simp [applyEff, Ctx.check, bind, Except.bind, pure, Except.pure]
     cases c.hook "BeforeAllowedBiddersAdded" (rAllowedArgs (ab :: rest)) <;> simp
 
-theorem tie_AddAllowedBidders_noAuction (c : Ctx) (aid : Nat) (abs : List AllowedArg) (hv : c.s.views[aid]? = none)
-    (a : Auction) :
-    addAllowedBidders c aid abs = c.fail ∧ Gen.AddAllowedBidders (aid : Int) abs a true = (true, []) := by
+theorem tie_AddAllowedBidders_noAuction (c : Ctx) (aid : Nat) (abs : List AllowedArg) (hv : c.s.views[aid]? = none) :
+    addAllowedBidders c aid abs = c.fail ∧ Gen.AddAllowedBidders (aid : Int) abs (rdAuction c.s) = (true, []) := by
+  have hA : rdAuction c.s (aid : Int) = (default, true) := by simp [rdAuction, hv]
   unfold addAllowedBidders Gen.AddAllowedBidders
-  simp only [Ctx.view, hv]
+  simp only [Ctx.view, hv, hA]
   cases abs <;> simp [Ctx.check, Ctx.fail, bind, Except.bind, pure, Except.pure]
 
 /-- **UpdateAllowedBidder** (keeper API).  `hacc`: callers pass a real account address (the Go
     parameter is an `sdk.AccAddress`, not a string to be parsed). -/
 theorem tie_UpdateAllowedBidder (c : Ctx) (aid : Nat) (bidder : Acc) (cap : Int) (hacc : validAcc bidder = true)
-    (v : AView) (hv : c.s.views[aid]? = some v) :
+    (v : AView) (hv : c.s.views[aid]? = some v) (hid : v.a.id = aid) :
     updateAllowedBidder c aid bidder cap =
-      Go.runPlan c aid v (Gen.UpdateAllowedBidder (aid : Int) bidder cap v.a false
-        ((lookupAllowed v.allowed bidder).getD default) (lookupAllowed v.allowed bidder).isNone) := by
+      Go.runPlan c aid v (Gen.UpdateAllowedBidder (aid : Int) bidder cap (rdAuction c.s) (rdAllowed c.s)) := by
+  subst hid
+  have hA : rdAuction c.s (v.a.id : Int) = (v.a, false) := by simp [rdAuction, hv]
+  have hB : rdAllowed c.s (v.a.id : Int) bidder =
+      ((lookupAllowed v.allowed bidder).getD default, (lookupAllowed v.allowed bidder).isNone) := by
+    simp [rdAllowed, hv]
   unfold updateAllowedBidder Gen.UpdateAllowedBidder
-  simp only [Ctx.view, hv, tie_AllowedBidder_Validate, hacc]
+  simp only [Ctx.view, hv, tie_AllowedBidder_Validate, hacc, hA, hB]
   cases hl : lookupAllowed v.allowed bidder with
   | none => simp [runPlan, Ctx.check, Ctx.fail, bind, Except.bind, pure, Except.pure, hl]
   | some x =>
     by_cases h2 : cap > 0
     · simp [runPlan, applyEff, setAllowedArg, Ctx.check, Ctx.fail, bind, Except.bind, pure, Except.pure, h2, hl]
-      cases c.hook "BeforeAllowedBidderUpdated" [rNat aid, rAcc bidder, rInt cap] <;> simp
+      cases c.hook "BeforeAllowedBidderUpdated" [rNat v.a.id, rAcc bidder, rInt cap] <;> simp
     · simp [runPlan, Ctx.check, Ctx.fail, bind, Except.bind, pure, Except.pure, h2, hl]
 
 theorem tie_UpdateAllowedBidder_noAuction (c : Ctx) (aid : Nat) (bidder : Acc) (cap : Int) (hv : c.s.views[aid]? = none)
-    (a : Auction) (ab : Allowed) (e : Bool) :
+    (ab : Int → Acc → Allowed × Bool) :
     updateAllowedBidder c aid bidder cap = c.fail ∧
-    Gen.UpdateAllowedBidder (aid : Int) bidder cap a true ab e = (true, []) := by
+    Gen.UpdateAllowedBidder (aid : Int) bidder cap (rdAuction c.s) ab = (true, []) := by
+  have hA : rdAuction c.s (aid : Int) = (default, true) := by simp [rdAuction, hv]
   unfold updateAllowedBidder Gen.UpdateAllowedBidder
-  simp [Ctx.view, hv, Ctx.fail, bind, Except.bind]
+  simp [Ctx.view, hv, Ctx.fail, bind, Except.bind, hA]
 
 /-- **MsgAddAllowedBidder** through the message server: refused unless the switch is on
     (the C10 guard), then exactly `AddAllowedBidders` with the one-element list. -/
 theorem tie_MsgServer_AddAllowedBidder (c : Ctx) (aid : Nat) (ab : AllowedArg) (hacc : validAcc ab.bidder = true)
-    (v : AView) (hv : c.s.views[aid]? = some v) :
+    (v : AView) (hv : c.s.views[aid]? = some v) (hid : v.a.id = aid) :
     handle c (.addAllowed aid ab) =
-      Go.runPlan c aid v (Gen.MsgServer_AddAllowedBidder ⟨aid, ab⟩ v.a false c.s.enableAdd).2 := by
+      Go.runPlan c aid v (Gen.MsgServer_AddAllowedBidder ⟨aid, ab⟩ (rdAuction c.s) c.s.enableAdd).2 := by
   unfold handle Gen.MsgServer_AddAllowedBidder
   simp only [hacc]
   cases he : c.s.enableAdd with
   | false => simp [runPlan, Ctx.check, Ctx.fail, bind, Except.bind, pure, Except.pure]
   | true =>
-    simp only [tie_AddAllowedBidders c aid [ab] v hv, Ctx.check, bind, Except.bind, if_true]
+    simp only [tie_AddAllowedBidders c aid [ab] v hv hid, Ctx.check, bind, Except.bind, if_true]
     congr 1
-    cases Gen.AddAllowedBidders (aid : Int) [ab] v.a false with
+    cases Gen.AddAllowedBidders (aid : Int) [ab] (rdAuction c.s) with
     | mk e l => cases e <;> simp
 
 /-- the C10 guard in isolation: with the switch off the translated handler refuses, before
     any effect, whatever the auction and the entry -/
-theorem tie_MsgServer_AddAllowedBidder_off (m : AddAllowedMsg) (a : Auction) (e : Bool) :
-    (Gen.MsgServer_AddAllowedBidder m a e false).2 = (true, []) := by
+theorem tie_MsgServer_AddAllowedBidder_off (m : AddAllowedMsg) (ag : Int → Auction × Bool) :
+    (Gen.MsgServer_AddAllowedBidder m ag false).2 = (true, []) := by
   unfold Gen.MsgServer_AddAllowedBidder
   by_cases h : validAcc m.ab.bidder = true <;> simp [h]
 
